@@ -213,7 +213,7 @@ def _booltime(lib, c):
 
 CONTAINER_DIMS = [("criteria", ["cmp", "cmp-raw-leq", "list", "bool-cond-value", "bool-cond-param", "bool-and-or", "bool-or-and", "none"]),
                   ("abstract_root", [True, False]), ("child_abstract", [False, True]), ("short", [None, "short text"]), ("long", [None, "long\ntext <&>"]),
-                  ("pshort", [None, "p short"]), ("plong", [None, "p long"]), ("nested", [False, True]), ("ns", ["xtce", "default", "other-prefix"])]
+                  ("pshort", [None, "p short <&>"]), ("plong", [None, "p long <&> \"q\" text"]), ("nested", [False, True]), ("ns", ["xtce", "default", "other-prefix"])]
 
 
 @subject("container", CONTAINER_DIMS)
